@@ -120,7 +120,9 @@ def run_case(case):
         if rng.random() < 0.5:
             shape = tuple(dic[pid].tensor.shape)
             dic[pid].tensor = torch.tensor(np.asarray(zoo.draw(rng, dom, shape), dtype=float).reshape(shape))
-        if dom == "positive" and dic[pid].tensor.numel() > 1 and rng.random() < 0.15:
+        if dom == "positive" and dic[pid].tensor.numel() > 1 and rng.random() < 0.15 and not str(pid).startswith("tree."):
+            # (not the tree's own parameters: equal increments put two nodes at the same height - a tie between event times, which the
+            # property excludes and where max() has no derivative)
             # all entries equal (where optimisers and samplers are started): still an interior point, the density is smooth there
             dic[pid].tensor = torch.full_like(dic[pid].tensor, float(np.exp(rng.normal(0.5, 0.5))))
             C["tied_vectors"] = C.get("tied_vectors", 0) + 1
